@@ -22,7 +22,7 @@ PROPERTY = "C18"
 RULE = (
     "complete product: {ML, ML+matrix floors, MAP} x all sequences of <= 2 operations over a 13-operation menu (weights incl. a "
     "list, means, variances incl. sub-floor values, floors incl. 2^-70 (< default eps), EM steps) x (max_fitting_steps, "
-    "convergence_threshold) in {1,7,200,None} x {1e-5, 0.5, None} minus (None, None) x 2 rotating switch sets; per case "
+    "convergence_threshold) in {1,7,200,None,0} x {1e-5, 0.5, None, 0.0} minus (None, None) x 2 rotating switch sets; per case "
     "round trips 1..3 via path and via open file, from_hdf5 and load into another shape, re-save comparison, further "
     "training of original vs reloaded, legacy file. Statistics: 7 value patterns x 4 shapes. Non-trivial: the saved state "
     "differs from the start state or has a non-default setting; distinct = distinct (start, ops, settings)"
@@ -34,8 +34,8 @@ ASSUMPTIONS = [
 BUDGET = {"quick": 900, "thorough": 4 * 3600}
 
 MENU = [("w", 1), ("w", 3), ("mu", 1), ("var", 1), ("var", 2), ("floor", 1), ("floor", 3), ("floor", 4), ("floor", 6), ("em", 7), ("em", 2), ("em", 4), ("fit2", 0)]
-CAPS = [1, 7, 200, None]
-THRS = [1e-5, 0.5, None]
+CAPS = [1, 7, 200, None, 0]
+THRS = [1e-5, 0.5, None, 0.0]
 SWS = [(1, 0, 0), (1, 1, 1), (0, 1, 0), (0, 0, 1)]
 STARTS = ["ml", "ml_matrix_floor", "map"]
 
